@@ -6,6 +6,7 @@ import (
 	"fmt"
 	"go/constant"
 	"go/types"
+	"sort"
 	"strconv"
 	"strings"
 
@@ -13,23 +14,23 @@ import (
 )
 
 type SV struct {
-	Ptr    *Loc // pointer to a not-yet-escaped local object (kept symbolic)
-	T      *T
-	Ty     SType
-	IsNil  bool // untyped nil
-	IsPkg  string
+	Ptr   *Loc // pointer to a not-yet-escaped local object (kept symbolic)
+	T     *T
+	Ty    SType
+	IsNil bool // untyped nil
+	IsPkg string
 }
 
 type Env struct {
-	ex      *Ex
-	fr      *Frame
-	st      *State
-	old     *State
-	vars    map[string]SV
-	pkgName string
-	results []SV
+	ex       *Ex
+	fr       *Frame
+	st       *State
+	old      *State
+	vars     map[string]SV
+	pkgName  string
+	results  []SV
 	resNames []string
-	depth   int
+	depth    int
 }
 
 func (ex *Ex) newEnv(fr *Frame, st *State) *Env {
@@ -132,16 +133,48 @@ func (ex *Ex) lookupIdent(env *Env, name string) (SV, bool) {
 			}
 		}
 		if fr.CurLoop != nil {
-			for _, b := range fn.Blocks {
-				for _, ins := range b.Instrs {
-					if phi, ok := ins.(*ssa.Phi); ok && phi.Comment == name {
-						if v, ok := st.regs[phi]; ok && (b == fr.CurLoop.Header || !fr.CurLoop.Blocks[b]) {
-							if b == fr.CurLoop.Header {
-								return SV{T: ex.termOf(fr, st, v, phi.Type()), Ty: SType{G: phi.Type()}}, true
-							}
+			// loop-carried variable of the current loop or of an enclosing loop (innermost first)
+			var encl []*loopInfo
+			for _, li := range fr.Loops {
+				if li.Blocks[fr.CurLoop.Header] {
+					encl = append(encl, li)
+				}
+			}
+			sort.Slice(encl, func(i, j int) bool { return len(encl[i].Blocks) < len(encl[j].Blocks) })
+			for _, li := range encl {
+				for _, ins := range li.Header.Instrs {
+					phi, ok := ins.(*ssa.Phi)
+					if !ok {
+						break
+					}
+					if phi.Comment == name {
+						if v, ok := st.regs[phi]; ok {
+							return SV{T: ex.termOf(fr, st, v, phi.Type()), Ty: SType{G: phi.Type()}}, true
 						}
 					}
 				}
+			}
+			// a loop-carried variable of an earlier loop that was left through an exit (the current
+			// loop is not nested in it in the CFG, but the variable's current value is that phi)
+			var best *ssa.Phi
+			for _, b := range fn.Blocks {
+				if !b.Dominates(fr.CurLoop.Header) {
+					continue
+				}
+				for _, ins := range b.Instrs {
+					phi, ok := ins.(*ssa.Phi)
+					if !ok {
+						break
+					}
+					if phi.Comment == name {
+						if _, ok := st.regs[phi]; ok && (best == nil || best.Block().Dominates(b)) {
+							best = phi
+						}
+					}
+				}
+			}
+			if best != nil {
+				return SV{T: ex.termOf(fr, st, st.regs[best], best.Type()), Ty: SType{G: best.Type()}}, true
 			}
 		}
 		for i, p := range fn.Params {
@@ -967,6 +1000,9 @@ func (ex *Ex) trCall(env *Env, e *Expr) (SV, error) {
 			arr = Store(arr, IntLit(int64(i)), a.T)
 		}
 		return SV{T: w.MkSlice(es, arr, IntLit(int64(len(args))), tFalse), Ty: SType{G: types.NewSlice(et)}}, nil
+	case "rtypeId":
+		// rtypeId(t): the type a reflect.Type value denotes
+		return SV{T: App("rtid", SInt, ValOf(args[0].T)), Ty: SType{TypeID: true}}, nil
 	case "ref":
 		// the reference itself (maps otherwise denote their content under old())
 		return SV{T: args[0].T, Ty: SType{G: types.Typ[types.UnsafePointer]}}, nil
